@@ -100,13 +100,32 @@ prop( 'C17', [ 'T-CMP', 'T-DURATION', 'T-LOCALIZE' ],
       not_decided='float rounding, time-zone/DST behaviour, millisecond fidelity of render/parse (numeric).',
       technique='operator-family shape matching (AST patterns); unit/suffix table agreement incl. constant-regex group lookup' )
 
-prop( 'C18', [ 'T-RECORD', 'X-STATES' ],
+prop( 'C18', [ 'T-RECORD', 'H-PARSE', 'H-FILES', 'H-NATURAL', 'H-OPENER', 'H-PACE', 'H-LOAD', 'H-STRICT', 'X-STATES' ],
       decides='T-RECORD: logger.write emits exactly str(timestamp) TAB json(serial) TAB json(data) NEWLINE, parse_record splits at the first '
               'two TABs only and decodes the same fields with the same default encoding, comment lines are written with "# " and skipped '
-              '(with blank lines) by the reader; X-STATES: every loader state has statename/statelogger entries, the declared order '
-              'INITIAL<...<COMPLETE<FAILED holds, truthiness is state < COMPLETE, only declared constants are assigned to the state.',
-      not_decided='exactly-once / in-order / on-time delivery against the clock (schedule and clock dependent).',
-      technique='writer/reader field-table agreement (AST patterns); state-table exhaustiveness' )
+              '(with blank lines) by the reader; H-PARSE: abstract value of the line variable at end of file is None or a record, never a '
+              'skipped line (forward data-flow), no record => StopIteration before the split, one line-count increment per physical line; '
+              'H-FILES: candidates are the directory entries starting with the base name ordered by sorted( key=natural ), each opened via '
+              'opener( path + suffix ), a record-less or unreadable candidate never ends the search, the reject/stop conditions equal the '
+              '12-cell table over after x strict x sign( ts - target ) (evaluated, not text-matched), the last deferred file wins, none => '
+              'HistoryExhausted, all deferred files closed in finally; H-NATURAL: digit runs accumulate base 10, rendered right-aligned '
+              'fixed width; H-OPENER: extension -> decompressor table; H-PACE: in reader.open a record is yielded only where `ts > horizon` '
+              'was last found False and ( ts, None ) only where it was found True after re-reading the clock (forward data-flow over the '
+              'CFG), horizon = advance() + look-ahead, exactly one parse_record between a yielded record and the next yield and none after '
+              'a "not yet" announcement (path counting), StopIteration ends the file; H-LOAD: open( target=_ts, after=state!=INITIAL, '
+              'strict=_strict, lookahead ) exactly in INITIAL/SWITCHING, strict set after each open and released only under ts > _ts, acceptance iff ts >= _ts '
+              'with one event + one future entry, drain only while future[0].ts <= cur (popleft, values.update, until), upcoming respected, '
+              'AWAITING/SWITCHING/EXHAUSTED/COMPLETE transitions; H-STRICT: typestate analysis of loader.load re-entered across calls - sets of '
+              '( loader state, constant-valued flags and loop booleans, ghost "a record of the open file was processed in an earlier iteration" ) '
+              'propagated over the CFG with three-valued branch pruning and fed back from exit to entry to a fixpoint: no abstract state with '
+              'ghost = 0 reaches the strict release, strict is set whenever the record loop starts on a new file, open() only in '
+              'INITIAL/SWITCHING; X-STATES: every loader state has statename/statelogger entries, the '
+              'declared order INITIAL<...<COMPLETE<FAILED holds, truthiness is state < COMPLETE, only declared constants are assigned.',
+      not_decided='the end-to-end delivery against a concrete clock and schedule (which load() call delivers which record), millisecond '
+                  'rounding of timestamps (C17), and the final register map as a value: these are decided only as far as the structural '
+                  'clauses above are necessary conditions of them.',
+      technique='writer/reader field-table agreement (AST patterns); forward data-flow and path counting over a statement CFG of '
+                'parse_record / reader.open / loader.load; typestate (finite abstract-state sets to a fixpoint) for the strict flag; decision-table evaluation of the file-selection predicates; state-table exhaustiveness' )
 
 prop( 'C02', [ 'G-CHUNK', 'G-FRAME', 'P-ACT', 'P-ONE', 'P-CHAIN', 'R-ISO', 'N-RECV', 'R-SENT', 'R-PROGRESS', 'G-PRIMS' ],
       decides='G-CHUNK: in the stream-fed machines (enip_machine incl. enip_header; tnet_machine) no state has both an input edge and a '
